@@ -751,6 +751,8 @@ def check_closed(sc, ls, after_failure=False):
         cfi = _auxdata_offsetmap.cfi_directives.get(m)
         has_cfi = bool(cfi and b in cfi and cfi[b])
         is_entry = m.entry_point is b
+        from gtirb_rewriting import _auxdata as _ad
+        is_entry = is_entry or _ad.elf_dynamic_init.get(m) is b or _ad.elf_dynamic_fini.get(m) is b
         documented = (refs and not sect_blocks) or has_in_edges or has_cfi or is_entry
         if not after_failure:
             eng.check(documented, "C05 zero-sized block left behind outside the documented cases")
@@ -762,6 +764,32 @@ def check_closed(sc, ls, after_failure=False):
         eng.check(ir.deep_eq(ir2), "C05 IR changes over a protobuf save/load round trip")
     else:
         eng.ok()
+
+
+def check_designators(sc, ls):
+    """Entry point, elfDynamicInit and elfDynamicFini keep designating the same place of the listing: the block itself while
+    it survives, otherwise the position its start label slid to (a code block there, or the documented zero-sized block)."""
+    from gtirb_rewriting import _auxdata
+    eng = sc.eng
+    m = sc.module
+    bases = _bases(sc)
+    live = set(m.byte_blocks)
+    for what, bid, got in (("entry point", sc.spec.get("entry_point"), m.entry_point),
+                           ("elfDynamicInit", sc.spec.get("elf_init"), _auxdata.elf_dynamic_init.get(m)),
+                           ("elfDynamicFini", sc.spec.get("elf_fini"), _auxdata.elf_dynamic_fini.get(m))):
+        if not bid:
+            continue
+        eng.check(got is not None, "C05 the %s was dropped by the rewrite" % what)
+        eng.check(isinstance(got, gtirb.CodeBlock) and got in live, "C05 the %s is not a code block of the module: %r" % (what, got))
+        label = (sc.bspec[bid].get("syms") or [None])[0]
+        sym = sc.symbols.get(label) if label else None
+        if sym is not None and isinstance(sym.referent, gtirb.ByteBlock) and sym.referent in live:
+            want = bases[sym.referent.byte_interval] + sym.referent.offset
+            have = bases[got.byte_interval] + got.offset
+            eng.check(have == want, "C05 the %s no longer designates the place its block's label designates" % what)
+
+
+PROP_CHECKS["C05d"] = [check_bytes, check_closed, check_designators]
 
 
 def h_rewrite_fault(eng, spec, fault_at):
@@ -828,6 +856,17 @@ def make_check_C05(tier):
         spec["annots"] = [a for a in spec["annots"] if a.get("sym") != "s2"]
         spec["mods"] = _c.deepcopy(mods)
         chk.add("closed-only/mixed/%s" % rewrite_shapes.mods_name(mods), h_rewrite_closed_only, params=dict(spec=spec), timeout=900)
+    # module-level designators (entry point, elfDynamicInit, elfDynamicFini) on a block that is edited or deleted, followed
+    # by code, by data, or by nothing
+    for key in ("entry_point", "elf_init", "elf_fini"):
+        for lay, bid, mods in (("mixed", "b0", [dele("b0", 0, 2)]), ("mixed", "b2", [dele("b2", 0, 2)]), ("mixed", "b0", [dele("b0", 0, 1)]),
+                               ("text", "b1", [dele("b1", 0, 3)]), ("text", "b2", [dele("b2", 0, 2)]), ("text", "b1", [rewrite_shapes.ins("b1", 0, "mov")]),
+                               ("text", "b0", [dele("b0", 0, 2), dele("b1", 0, 3)])):
+            spec = {"mixed": rewrite_shapes.mixed_layout, "text": lambda: rewrite_shapes.text_layout("o")}[lay]()
+            spec[key] = bid
+            spec["mods"] = _c.deepcopy(mods)
+            chk.add("designator/%s/%s/%s/%s" % (key, lay, bid, rewrite_shapes.mods_name(mods)), h_rewrite,
+                    params=dict(spec=spec, props=["C05d"]), timeout=900)
     # block-keyed tables (types, encodings, sccs, profile): blocks that are merged away or removed must leave them
     ins = rewrite_shapes.ins
     for lay, mods in (("mixed", [ins("d0", 1, "string")]), ("mixed", [ins("b1", 1, "string")]), ("mixed", [ins("d0", 0, "string")]),
@@ -855,6 +894,7 @@ def make_check_C05(tier):
         spec["aligned_base"] = True
         spec["mods"] = [ins("b1", 0, patch)]
         chk.add("align-meet/b1a%d/%s" % (b1a, patch), h_rewrite_closed_only, params=dict(spec=spec), timeout=900)
+    chk.bounds["designators"] = "entry point / elfDynamicInit / elfDynamicFini on a block that is cut, deleted (next: code, data, nothing) or inserted into"
     chk.bounds["block-keyed tables"] = ("types/encodings on every data block, sccs/profile on every code block of the layout; "
                                         ".string patches (the assembler records an encoding for their block)")
     chk.bounds["fault injection"] = "an exception raised from the k-th Patch.get_asm callback, every k up to the number of patches"
